@@ -17,6 +17,9 @@ from mc.harness import Check, pool_imap
 
 
 def sampler_case(item):
+    """Representation-independent: however the code draws the mixture (Bernoulli draw or uniform comparison; scipy's or the
+    generator's gamma), for every value of the auxiliary variable the exact probability of the shape-(a+K) component must be
+    pi_eta, the gamma draw must have shape a+K-1+z and the returned value must be that draw divided by (b - log eta)."""
     a, b, alpha, K, n = item
     from phyclone.mcmc.concentration import GammaPriorConcentrationSampler
     from scipy import stats
@@ -26,44 +29,62 @@ def sampler_case(item):
     def run(rng):
         s = GammaPriorConcentrationSampler(a, b, rng=rng)
         v = s.sample(alpha, K, n)
-        return float(v), list(rng.draws)
+        return float(v), list(rng.draws), rng.prob
 
+    mass = {}  # eta quantile index -> {z: probability}
     try:
-        for p, (v, draws), choices, _ in explore(run):
+        for p, (v, draws, _), choices, _ in explore(run):
             res["n"] += 1
             res["outcomes"].add(round(v, 12))
-            kinds = [d[0] for d in draws]
-            if kinds != ["beta", "binomial", "standard_gamma"]:
-                res["problems"].append("draw sequence %r, expected beta, Bernoulli, gamma" % kinds)
+            cont = [d for d in draws if d[0] in ("beta", "standard_gamma", "gamma")]
+            if not cont or cont[0][0] != "beta":
+                res["problems"].append("the first continuous draw is %r, expected the auxiliary Beta variable" % (cont[:1],))
                 break
-            (ba, bb) = draws[0][1]
+            (ba, bb) = cont[0][1]
             if abs(ba - (alpha + 1)) > 1e-12 * (1 + alpha) or abs(bb - n) > 1e-12:
                 res["problems"].append("auxiliary variable drawn from Beta(%r, %r), expected Beta(alpha+1=%r, n=%r)" % (ba, bb, alpha + 1, n))
                 break
-            eta = float(stats.beta.ppf(QUANTILES[choices[0]], alpha + 1, n))
+            gam = [d for d in cont[1:] if d[0] in ("standard_gamma", "gamma")]
+            if len(gam) != 1 or len(cont) != 2:
+                res["problems"].append("continuous draws %r, expected one Beta and one Gamma draw" % ([d[0] for d in cont],))
+                break
+            qi = choices[0]
+            eta = float(stats.beta.ppf(QUANTILES[qi], alpha + 1, n))
             rate = b - math.log(eta)
             odds = (a + K - 1) / (n * rate)
             pi = odds / (1 + odds)
-            (bn, bp) = draws[1][1]
-            if bn != 1 or abs(bp - pi) > 1e-12:
-                res["problems"].append("mixture indicator Bernoulli(%r), expected %r (a=%g b=%g K=%d n=%d eta=%g)" % (bp, pi, a, b, K, n, eta))
+            shape = gam[0][1][0]
+            base = a + K - 1
+            if abs(shape - base) < 1e-12:
+                z = 0
+            elif abs(shape - (base + 1)) < 1e-12:
+                z = 1
+            else:
+                res["problems"].append("gamma shape %r, expected %r or %r" % (shape, base, base + 1))
                 break
-            z = choices[1] if pi not in (0.0, 1.0) else (1 if pi == 1.0 else 0)
-            # which alternative index maps to which outcome: outcomes 0,1 in order under policy 'first'
-            shape = draws[2][1][0]
-            want_shape = a + K - 1
-            if not (abs(shape - want_shape) < 1e-12 or abs(shape - (want_shape + 1)) < 1e-12):
-                res["problems"].append("gamma shape %r, expected %r or %r" % (shape, want_shape, want_shape + 1))
-                break
-            z_obs = int(round(shape - want_shape))
+            mass.setdefault(qi, {0: 0.0, 1: 0.0, "pi": pi})[z] += p
             g = float(stats.gamma.ppf(QUANTILES[choices[-1]], shape))
+            if gam[0][0] == "gamma":
+                scale = gam[0][1][1]
+                if abs(scale * rate - 1.0) > 1e-10:
+                    res["problems"].append("gamma scale %r, expected 1/(b - log eta) = %r" % (scale, 1.0 / rate))
+                    break
             want = max(g / rate, 1e-10)
-            if not abs(v - want) <= 1e-12 * (1 + want):
+            if not abs(v - want) <= 1e-10 * (1 + want):
                 res["problems"].append("new value %r, expected gamma draw / (b - log eta) = %r" % (v, want))
                 break
-            res["outcomes"].add(("z", z_obs))
-        if {("z", 0), ("z", 1)} - res["outcomes"]:
-            res["problems"].append("both mixture components must be reachable; saw %r" % sorted(x for x in res["outcomes"] if isinstance(x, tuple)))
+        if not res["problems"]:
+            for qi, m in mass.items():
+                tot = m[0] + m[1]
+                if tot <= 0 or abs(m[1] / tot - m["pi"]) > 1e-10:
+                    res["problems"].append("mixture weight of the shape-(a+K) component is %r for eta quantile %d, expected %r (a=%g b=%g K=%d n=%d)" % (
+                        m[1] / tot if tot else None, qi, m["pi"], a, b, K, n))
+                    break
+                if m["pi"] > 1e-12 and m["pi"] < 1 - 1e-12 and (m[0] == 0 or m[1] == 0):
+                    res["problems"].append("only one mixture component is reachable for eta quantile %d" % qi)
+                    break
+            if len(mass) != len(QUANTILES):
+                res["problems"].append("the auxiliary variable took %d of its %d alphabet values" % (len(mass), len(QUANTILES)))
     except Exception as e:
         res["problems"].append("raised %s: %s" % (type(e).__name__, e))
     res["outcomes"] = len(res["outcomes"])
